@@ -311,10 +311,53 @@ def check_out_of_range(ctx):
                 rec.fail(f'{func}:value:beyond-max', case,
                          f'{func}({n}) = {got!r}, expected #NUM!')
     for func in ('HOUR', 'MINUTE', 'SECOND'):
-        got, exc = ctx.call(f'={func}(A1)', A1=-0.25)
-        if exc is not None or got != '#NUM!':
-            rec.fail(f'{func}:negative', dict(kind='oor', func=func, n=-0.25),
-                     f'{func}(-0.25) = {got!r} {exc!r}')
+        for n in (-0.25, MAX_SERIAL + 1, MAX_SERIAL + 1.5, 3000000.25):
+            got, exc = ctx.call(f'={func}(A1)', A1=n)
+            rec.case(key=('oor-time', func, n), nontrivial=True,
+                     labels=('out-of-range',),
+                     sample=dict(kind='oor', func=func, n=n))
+            if exc is not None or got != '#NUM!':
+                rec.fail(f'{func}:out-of-range', dict(kind='oor', func=func,
+                                                      n=n),
+                         f'{func}({n}) = {got!r} {exc!r}')
+    # a date with a time of day, a fraction of a month / year / day: the
+    # fraction is dropped ("shifts by whole months"), never an exception
+    for n in (0, 1, 59, 60, 61, 100, 44000, MAX_SERIAL):
+        for frac in (0.25, 0.5, 0.999):
+            for k in (0, 1, -1, 13):
+                for func, model in (('EDATE', model_edate),
+                                    ('EOMONTH', model_eomonth)):
+                    want = model(n, k)
+                    if want == 'UNCLEAR':
+                        continue
+                    for args, what in (((n + frac, k), 'date'),
+                                       ((n, k + frac if k >= 0 else k - frac),
+                                        'months')):
+                        got, exc = ctx.call(f'={func}(A1,B1)', A1=args[0],
+                                            B1=args[1])
+                        case = dict(kind='oor', func=func, n=list(args))
+                        rec.case(key=('frac', func, args), nontrivial=True,
+                                 labels=('fractional-argument',), sample=case)
+                        if exc is not None:
+                            rec.fail(f'{func}:raises:{exc_key(exc)}:fraction',
+                                     case, f'{func}{args} raised {exc!r}'[:300])
+                        elif got != want and not is_int(got, want):
+                            rec.fail(f'{func}:value:fraction-of-{what}', case,
+                                     f'{func}{args} = {got!r}, {func}({n},{k})'
+                                     f' = {want!r}')
+    for y, m, d in ((2000, 1, 1), (1900, 2, 28), (1999, 12, 31), (2024, 2, 29)):
+        want = model_date(y, m, d)
+        for dy, dm, dd in ((0.9, 0, 0), (0, 0.9, 0), (0, 0, 0.9), (0.5, 0.5, 0.5)):
+            got, exc = ctx.call('=DATE(A1,B1,C1)', A1=y + dy, B1=m + dm,
+                                C1=d + dd)
+            case = dict(kind='oor', func='DATE', n=[y + dy, m + dm, d + dd])
+            rec.case(key=('frac', 'DATE', y + dy, m + dm, d + dd),
+                     nontrivial=True, labels=('fractional-argument',),
+                     sample=case)
+            if exc is not None or not is_int(got, want):
+                rec.fail('DATE:fraction', case,
+                         f'DATE({y + dy},{m + dm},{d + dd}) = {got!r} {exc!r}, '
+                         f'DATE({y},{m},{d}) = {want}')
 
 
 BOUNDARY_SERIALS = sorted(set(
